@@ -1,7 +1,7 @@
 (* C10 — Assigning one element changes that element and nothing else. Statements only. *)
 From Coq Require Import ZArith List Bool Lia.
 Import ListNotations.
-From XO Require Import Slots Strides BufOps Types Format Check LayoutProofs Update UpdateProofs UpdateSize UpdateFrame.
+From XO Require Import Slots Strides BufOps Types Format Check LayoutProofs Update UpdateProofs UpdateSize UpdateFrame UpdateAt.
 Open Scope Z_scope.
 
 (* on the value tree: the assigned element becomes the (capacity-preserving) new value, every
@@ -33,6 +33,14 @@ Theorem C10_frame_of_assignment : forall t v p x v' img,
     enc st old = Some a /\ enc st x' = Some b /\ len a = len b /\ enc t v' = Some img' /\
     exists pre post, img = pre ++ a ++ post /\ img' = pre ++ b ++ post.
 Proof. exact assign_frame. Qed.
+(* ... and WHERE: the replaced sub-image lies at the offset obtained by summing, along the path, the
+   offsets of the fields / items inside their parents (pure arithmetic on image lengths) *)
+Theorem C10_frame_of_assignment_positioned : forall t v p x v' img,
+  assign t v p x = Some v' -> enc t v = Some img ->
+  exists st old x' a b img' d, vget v p = Some old /\ sub_ty t p = Some st /\ retag old x = Some x' /\
+    enc st old = Some a /\ enc st x' = Some b /\ len a = len b /\ enc t v' = Some img' /\ path_off t v p = Some d /\
+    exists pre post, img = pre ++ a ++ post /\ img' = pre ++ b ++ post /\ len pre = d.
+Proof. exact assign_frame_at. Qed.
 Theorem C10_history_sound : forall steps t v size n, check_updates t v size n steps = None -> conforms t v size steps.
 Proof. exact check_updates_sound. Qed.
 
@@ -53,3 +61,4 @@ Print Assumptions C10_string_keeps_size.
 Print Assumptions C10_history_sound.
 Print Assumptions C10_extent_kept.
 Print Assumptions C10_frame_of_assignment.
+Print Assumptions C10_frame_of_assignment_positioned.
